@@ -362,9 +362,11 @@ static std::string ptrVal(FnCtx &X, const Value *V) {
     }
     return val(X, V);
 }
+static int rawDerefs = 0; // loads/stores that could not be resolved to a direct lvalue path (emitted through a C pointer)
 static std::string lval(FnCtx &X, const Value *Ptr) {
     Path P = resolve(X, Ptr);
     if (P.ok) return pathStr(P);
+    ++rawDerefs;
     return "(*" + val(X, Ptr) + ")";
 }
 
@@ -759,6 +761,26 @@ static void emitFunction(Function &F, raw_ostream &O) {
                             if (PD.ty == PS.ty && DL->getTypeAllocSize(PD.ty) == LEN->getZExtValue()) { if (monitorOn && frozenRoots.count(PD.root)) O << "    __CPROVER_assert(!__frozen, \"const operation writes shared state (memcpy): " << skeleton(PD) << "\");\n"; O << "    " << pathStr(PD) << " = " << pathStr(PS) << "; /* typed memcpy */\n"; if (II) gotoBlock(X, &B, II->getNormalDest(), O); continue; }
                         }
                     }
+                    {   // a copy that spans several consecutive fields of two objects of the same struct type: field-wise assignment
+                        Path PD = resolveBytes(X, CB->getArgOperand(0)), PS = resolveBytes(X, CB->getArgOperand(1));
+                        auto *LEN = dyn_cast<ConstantInt>(CB->getArgOperand(2));
+                        if (PD.ok && PS.ok && LEN && !PD.steps.empty() && !PS.steps.empty() && PD.steps.back().isField && PS.steps.back().isField && PD.steps.back().k == PS.steps.back().k) {
+                            auto parentTy = [&](const Path &P) -> Type * { Type *T = P.rootTy; for (size_t q = 0; q + 1 < P.steps.size(); ++q) { if (P.steps[q].isField) T = cast<StructType>(T)->getElementType(P.steps[q].k); else T = cast<ArrayType>(T)->getElementType(); } return T; };
+                            Type *TD = parentTy(PD), *TS = parentTy(PS);
+                            if (TD == TS && isa<StructType>(TD)) {
+                                auto *ST = cast<StructType>(TD); const StructLayout *SL = DL->getStructLayout(ST);
+                                unsigned k = PD.steps.back().k; uint64_t start = SL->getElementOffset(k), want = start + LEN->getZExtValue(); unsigned m = k; bool exact = false;
+                                for (; m < ST->getNumElements(); ++m) { uint64_t endq = (m + 1 < ST->getNumElements()) ? SL->getElementOffset(m + 1) : SL->getSizeInBytes(); uint64_t tight = SL->getElementOffset(m) + DL->getTypeStoreSize(ST->getElementType(m)); if (want == endq || want == tight) { exact = true; break; } if (want < endq) break; }
+                                if (exact) {
+                                    Path BD = PD, BS = PS; BD.steps.pop_back(); BS.steps.pop_back();
+                                    if (monitorOn && frozenRoots.count(PD.root)) O << "    __CPROVER_assert(!__frozen, \"MON: const operation writes shared state (memcpy): " << skeleton(PD) << "\");\n";
+                                    for (unsigned q = k; q <= m; ++q) O << "    " << pathStr(BD) << ".f" << q << " = " << pathStr(BS) << ".f" << q << "; /* field-range memcpy */\n";
+                                    if (II) gotoBlock(X, &B, II->getNormalDest(), O);
+                                    continue;
+                                }
+                            }
+                        }
+                    }
                     O << "    " << (nm.rfind("llvm.memcpy", 0) == 0 ? "memcpy" : "memmove") << "(" << val(X, CB->getArgOperand(0)) << ", " << val(X, CB->getArgOperand(1)) << ", " << val(X, CB->getArgOperand(2)) << ");\n";
                 } else if (nm.rfind("llvm.memset", 0) == 0) {
                     {
@@ -975,7 +997,7 @@ int main(int argc, char **argv) {
             if (auto *SP = D->getScope()->getSubprogram()) { StringRef fn = SP->getFilename(); if (fn.contains("BaseGraph/")) fns.insert(llvm::demangle(SP->getLinkageName().empty() ? SP->getName().str() : SP->getLinkageName().str())); }
         int mx = 0; for (auto &l : loopMetas) mx = std::max(mx, l.bound);
         auto esc = [](std::string x) { std::string r; for (char c : x) { if (c == '"' || c == '\\') r += '\\'; r += c; } return r; };
-        MO << "{\"max_bound\": " << mx << ", \"loops\": [";
+        MO << "{\"max_bound\": " << mx << ", \"raw_pointer_accesses\": " << rawDerefs << ", \"loops\": [";
         for (size_t i = 0; i < loopMetas.size(); ++i) MO << (i ? ", " : "") << "{\"where\": \"" << esc(loopMetas[i].func) << "\", \"bound\": " << loopMetas[i].bound << "}";
         MO << "], \"functions\": [";
         size_t i = 0; for (auto &f : fns) MO << (i++ ? ", " : "") << "\"" << esc(f) << "\"";
